@@ -30,7 +30,7 @@ def judge_c14(d):
 
 PROPS = {
     "C14": {
-        "lean_modules": ["P2.Props.C14Gen"],
+        "lean_modules": ["P2.Props.C14Gen", "P2.Props.C14"],
         "audit_module": "P2.Audit.C14",
         "harness_prop": "c14",
         "profile": "verif",
@@ -126,7 +126,7 @@ def judge_c15(d):
 
 
 PROPS["C15"] = {
-    "lean_modules": ["P2.Props.C15Gen"],
+    "lean_modules": ["P2.Props.C15Gen", "P2.Props.C15"],
     "audit_module": "P2.Audit.C15",
     "harness_prop": "c15",
     "profile": "release",
@@ -139,6 +139,38 @@ PROPS["C15"] = {
     "level_note": "Trusted: Lean kernel, standard axioms, extract.py, hand-written definitions tied by correspondence. Found and repaired two genuine defects of div_rem on this tree (known_findings.jsonl F-C15-1/2).",
     "assumptions": [],
     "rule": "fft/ifft/coset/lde for every size 2^0..2^10 (thorough 2^13) with every zero_factor, with/without (larger) root tables; bit reversal out of place and in place for element sizes 8B..16KiB on both sides of the chunking thresholds; polynomial operand kinds empty/zero/constant/dense/leading-zeros/sparse incl. sparse divisors; distinct = distinct request lines",
+}
+
+def judge_c05(d):
+    a, b = d["impl"], d["model"]
+    rq = d["request"]
+    if rq.startswith("c05 verify"):
+        if a == "ACCEPT" and b != "ACCEPT":
+            return f"the implementation ACCEPTS an opening proof that the FRI verifier model rejects ({b}) with the challenges held fixed"
+        if b == "ACCEPT" and a != "ACCEPT":
+            return f"the implementation rejects ({a}) an opening proof the FRI verifier model accepts (honest proofs must be accepted)"
+        if a == "PANIC" and b != "PANIC":
+            return f"the implementation panics where the model returns {b}"
+        return f"verdict stage differs: implementation {a}, model {b}"
+    if rq.startswith("c05 constarity"):
+        return "ConstantArityBits schedule differs from the model (sum of arities / cap-height guard)"
+    return None
+
+
+PROPS["C05"] = {
+    "lean_modules": ["P2.Props.C05"],
+    "audit_module": "P2.Audit.C05",
+    "harness_prop": "c05",
+    "profile": "release",
+    "judge": judge_c05,
+    "trusted_base": KERNEL_TB + [
+        "modelled, not verified: fri/verifier.rs, fri/validate_shape.rs, reduction_strategies.rs transcribed by hand (P2/Model/Fri.lean); Poseidon hasher only; batch FRI not modelled yet (partial)",
+        "NOT proved (cryptographic idealisation): proximity soundness of the FRI query phase; the theorems cover decision logic and the algebraic identities each check relies on",
+    ],
+    "level_text": "Lean 4 model of the complete FRI verifier (shape, PoW, initial Merkle openings, combination of openings, per-layer interpolation/consistency/Merkle checks, final polynomial) with theorems on its decision logic and the arity schedule; tied to verify_fri_proof by exact verdict-and-stage agreement on honest opening proofs and on a deviation catalogue with challenges held fixed",
+    "level_note": "Trusted: Lean kernel, standard axioms, hand transcription tied by correspondence (exact agreement of two deterministic verifiers, no probabilistic slack). FRI proximity soundness is assumed, not proved.",
+    "assumptions": ["FRI proximity soundness", "collision resistance of Poseidon appears only as an explicit disjunct in C12's theorems"],
+    "rule": "honest opening proofs for random oracle shapes (1-4 oracles, 1-6 polys, blinding), degrees 2^1..2^7 (thorough 2^9), rate 1-4, cap 0-4, Fixed/ConstantArity/MinSize strategies, 1-5 queries (thorough 12) x 17 deviation classes with challenges fixed; ConstantArityBits schedule for all small parameters; distinct = distinct request lines",
 }
 
 NOT_CLAIMED = {}
